@@ -33,11 +33,25 @@ FIRST_MISSED.update({
  "C18-b2": "no document with more than 100 errors → documents with 40–400 errors from several rules",
  "C20-b2": "a nil *gqlerror.Error inside an error crashed the observation printer; no top-level json.Number variables → both handled",
 })
+FIRST_MISSED.update({
+ "C01-c1": "no input ended inside a second \\u escape → every prefix of look-ahead-heavy literals, bare and inside documents",
+ "C02-c2": "no directive carried directives on its arguments → chains, cycles and lassos of directive definitions in several name orders",
+ "C02-c3": "strings with U+2028 etc. never stood at ill-typed positions → odd strings (escaped and raw) at every ill-typed and well-typed position",
+ "C03-c1": "the escape digits came from hex digits only → every \\uXXXX over hex, near-hex and control bytes",
+ "C04-c3": "only the first location of a load error was judged → every location must be a token start of the file the error names",
+ "C06-c1": "BuiltIn marks through ParseSchemasWithLimit were checked by C16 only → the same sweep runs in C06",
+ "C07-c2": "MustLoadSchema was never called → every other load of a history goes through it; sources that redeclare prelude directives",
+ "C08-c2": "out-of-range float literals were positive only → both signs, several spellings, boundaries",
+ "C09-c1": "links were dumped after a rule-free walk → the links left after the rules must equal the walker's",
+ "C13-c1": "no non-object type carried a default root name next to an explicit schema definition → added",
+ "C16-c2": "limit 0 was only tried on small documents → a 20 000-token document on every entry point",
+ "C16-c3": "one source never went through ParseSchemasWithLimit → compared with ParseSchemaWithLimit under limits around the token count",
+})
 NOTE = {"C02-2": "obsolete: the guarded code (in-progress set) was replaced by the fields-and-fragment memo before it could be evaluated",
         "C09-1": "rebased by hand onto the repaired walker", "C10-3": "rebased by hand onto the polynomial rule", "C11-3": "import hunk rebased by hand"}
 print("| change | file | what it breaks | caught by | first evaluation |")
 print("|---|---|---|---|---|")
-for d in sorted(glob.glob(os.path.join(ROOT, "seeded", "C*-*")), key=lambda x: (os.path.basename(x)[:3], "b" in os.path.basename(x)[3:], x)):
+for d in sorted(glob.glob(os.path.join(ROOT, "seeded", "C*-*")), key=lambda x: (os.path.basename(x)[:3], os.path.basename(x)[4] if os.path.basename(x)[4] in "bc" else "a", x)):
     name = os.path.basename(d)
     m = json.load(open(os.path.join(d, "meta.json")))
     caught = [c for c, r in m.get("checks_run", {}).items() if r.get("caught")]
